@@ -181,6 +181,13 @@ def gen_C12(tier, rnd, brokermodel=False):
     ev = list(CONNECT) + [P("DISCONNECT", dur=3), adv(25), P("DISCONNECT", dur=1), adv(10), pingreq(), adv(9), pingreq(),
                           adv(10), P("DISCONNECT", dur=6), adv(55), pingreq(), adv(59), P("CONNECT", dur=2, cid="c1")]
     out.append(sc("renewed", ev, tail=5))
+    # sleep renewed late in a long sleep, with the same or a shorter duration, then a wake-up at the last tick
+    for d in (4, 6):
+        for d2 in (d, d - 1, d + 2):
+            for r in (10 * d - 10, 10 * d - 1, 10 * d // 2):
+                ev = list(CONNECT) + [P("DISCONNECT", dur=d), adv(r), P("DISCONNECT", dur=d2), adv(10 * d2 - 1), pingreq(),
+                                      adv(10 * d2 - 1), pingreq(), adv(5), P("CONNECT", dur=2, cid="c1")]
+                out.append(sc("renew-d%d-d%d-r%d" % (d, d2, r), ev, tail=5))
     for s in out:
         s["brokermodel"] = brokermodel
     return out
